@@ -369,16 +369,39 @@ impl World {
             self.apply_nondrop(op);
         }
     }
+    /// Like `apply`, but what the action drops is dropped by a thread that is unwinding: the value is held by a
+    /// frame that panics, as when the task owning a guard (or the entry) fails.  A drop is a drop: the property
+    /// quantifies over every placement of it, so the model's answer is the same as for `apply`.
+    pub fn apply_unwinding(&mut self, op: Op) -> bool {
+        struct Marker;
+        match self.take_doomed(op) {
+            Some(d) => {
+                let r = std::panic::catch_unwind(std::panic::AssertUnwindSafe(move || {
+                    let _held = d;
+                    std::panic::resume_unwind(Box::new(Marker));
+                }));
+                // our own payload: the destructors ran without a panic of their own (a second panic would abort)
+                !matches!(r, Err(p) if p.is::<Marker>())
+            }
+            None => std::panic::catch_unwind(std::panic::AssertUnwindSafe(|| self.apply_nondrop(op))).is_err(),
+        }
+    }
 }
 
-fn exec_seq(ops: &[Op]) -> Sx {
+fn exec_seq(ops: &[Op], unwinding: bool) -> Sx {
     c06::progress();
     let mut w = World::new(None);
     let mut obs = vec![];
     for &op in ops {
-        let r = std::panic::catch_unwind(std::panic::AssertUnwindSafe(|| w.apply(op)));
-        if r.is_err() {
-            w.panicked = true;
+        if unwinding {
+            if w.apply_unwinding(op) {
+                w.panicked = true;
+            }
+        } else {
+            let r = std::panic::catch_unwind(std::panic::AssertUnwindSafe(|| w.apply(op)));
+            if r.is_err() {
+                w.panicked = true;
+            }
         }
         obs.push(sx::n(w.sink.records.lock().unwrap().len() as u64));
     }
@@ -394,6 +417,10 @@ fn exec_seq(ops: &[Op]) -> Sx {
 
 pub fn seq_case(ops: &[Op]) -> Sx {
     sx::tag(0, vec![Sx::L(SHAPE.iter().map(|&b| sx::boolean(b)).collect()), Sx::L(ops.iter().map(enc_op).collect())])
+}
+/// The same history with every drop performed during an unwind (third argument; the model does not read it).
+pub fn seq_case_unwinding(ops: &[Op]) -> Sx {
+    sx::tag(0, vec![Sx::L(SHAPE.iter().map(|&b| sx::boolean(b)).collect()), Sx::L(ops.iter().map(enc_op).collect()), sx::boolean(true)])
 }
 
 pub fn exec(case: &Sx) -> (Sx, bool) {
@@ -425,7 +452,8 @@ pub fn exec(case: &Sx) -> (Sx, bool) {
             let ops: Vec<Op> = case.arg(1).list().iter().map(dec_op).collect();
             let opened = ops.iter().any(|o| matches!(o, Op::Open(..)));
             let dropped = ops.iter().any(|o| matches!(o, Op::K(KOp::DropOwner(_))));
-            (exec_seq(&ops), opened && dropped)
+            let unwinding = case.list().len() > 3 && case.arg(2).num() != 0;
+            (exec_seq(&ops, unwinding), opened && dropped)
         }
     }
 }
@@ -978,6 +1006,9 @@ pub fn run(ctx: &Ctx) {
     if std::env::var("MV_LOUD").is_err() { crate::common::quiet_panics(); }
     let mut out = Out::new(ctx, "");
     let emit = |out: &mut Out, case: Sx| {
+        if case.tag() == 0 && case.list().len() > 3 {
+            out.inflight(&case);
+        }
         let (imp, nt) = exec(&case);
         out.case(&case, &imp, nt);
     };
@@ -1022,6 +1053,13 @@ pub fn run(ctx: &Ctx) {
         for ops in &all {
             emit(&mut out, seq_case(ops));
         }
+        // the first configuration again with every drop placed on an unwinding thread
+        if ci == 0 {
+            for ops in &all {
+                emit(&mut out, seq_case_unwinding(ops));
+                out.count("histories_with_drops_during_unwind");
+            }
+        }
     }
     let mut rng = Rng::new(ctx.seed);
     let nrand = if ctx.tier_thorough { 30000 } else { 4000 };
@@ -1031,6 +1069,10 @@ pub fn run(ctx: &Ctx) {
         count_ops(&mut out, &ops);
         out.count("random_histories");
         emit(&mut out, seq_case(&ops));
+        if rng.below(4) == 0 {
+            out.count("histories_with_drops_during_unwind");
+            emit(&mut out, seq_case_unwinding(&ops));
+        }
     }
     // scheduled multi-thread runs
     let limit = if ctx.tier_thorough { 4000 } else { 300 };
